@@ -28,9 +28,12 @@ func main() {
 			bodies := sc.Make()
 			var want []string
 			if sc.Free {
+				// what each evaluation returns alone, from fresh registries
 				for _, b := range bodies {
+					object.VerifResetTypeCaches()
 					want = append(want, b())
 				}
+				object.VerifResetTypeCaches()
 			}
 			var mu sync.Mutex
 			for rep := 0; rep < 4; rep++ {
